@@ -59,3 +59,15 @@ Definition prun (by_origin : bool) (evs : list pev) : pstate := fold_left (pstep
 (** the history of the finding: the finish (1 byte here) and a protected request (1 byte) arrive in
     one read; the finish is handled; one more byte arrives; the buffered request is handled *)
 Definition injected : list pev := [Recv 2; Parse 1 false true; Recv 1; Parse 1 true false].
+
+(** The repaired connection (plaintext reads stop at the end of an HTTP message) hands over the bytes
+    of ONE request at a time: when a request is taken out of the buffer nothing beyond it is
+    buffered.  [framed buffered evs]: the history keeps that discipline. *)
+Fixpoint framed (buffered : nat) (evs : list pev) : bool :=
+  match evs with
+  | [] => true
+  | Recv k :: r => framed (buffered + k) r
+  | Parse n _ _ :: r =>
+    if buffered <? n then framed buffered r          (* the request is not complete yet: nothing happens *)
+    else (buffered =? n) && framed 0 r
+  end.
